@@ -92,6 +92,10 @@ FramingFields(r) ==
 Announced(r) == ~("noAnnounce" \in DOMAIN r /\ r.noAnnounce)
 TrailerNames(r) == JoinWith([k \in 1 .. Len(r.trailers) |-> r.trailers[k].name], ", ")
 
+\* a multipart form declared by Content-Length: the server parses it while reading the request, also in streaming mode
+IsMultipart(r) == r.raw = "" /\ \E k \in DOMAIN r.fields : r.fields[k].lname = "content-type" /\ Len(r.fields[k].words) >= 1
+                                                        /\ r.fields[k].words[1] = "multipart/form-data;"
+PreParsed(r) == IsMultipart(r) /\ r.framing = "cl" /\ r.bodyLen > 0
 \* optional field noKeepAlive: an HTTP/1.0 request without "Connection: keep-alive" (the connection ends with its response)
 NoKeepAlive(r) == "noKeepAlive" \in DOMAIN r /\ r.noKeepAlive
 \* optional fields clBefore / clAfter (decimal strings): a chunked request that ALSO carries a Content-Length field,
